@@ -530,20 +530,26 @@ static std::string handle(std::vector<std::string> &a)
   const std::string &c = a[0];
   if (c == "aes")
   {
-    bytes k = unhex(a[2]), b = unhex(a[3]);
+    bytes k = unhex(a[2]), b0 = unhex(a[3]);
     k.resize(16);
-    b.resize(16);
+    b0.resize(16);
+    // the result must not depend on WHERE the block and the key lie: they are placed at byte offsets 0..7 / 0..3 of
+    // larger buffers, chosen from the data (so every case line still gives one deterministic result)
+    size_t ob = b0[15] & 7, ok = k[15] & 3;
+    alignas(16) unsigned char bb[48], kb[32];
+    memcpy(bb + ob, b0.data(), 16);
+    memcpy(kb + ok, k.data(), 16);
     if (a[1] == "e")
     {
-      encryaes e(k.data());
-      e.runaes_128bit(b.data());
+      encryaes e(kb + ok);
+      e.runaes_128bit(bb + ob);
     }
     else
     {
-      decryaes d(k.data());
-      d.runaes_128bit(b.data());
+      decryaes d(kb + ok);
+      d.runaes_128bit(bb + ob);
     }
-    return hex(b);
+    return hex(bb + ob, 16);
   }
   if (c == "mode" || c == "modes")
   {
